@@ -10,7 +10,7 @@ run_one() {
   if ! git -C /repo apply "$PWD/$d/patch.diff"; then echo "$d: patch does not apply"; return; fi
   for c in $checks; do
     out=$(VERIF_SEED=${VERIF_SEED:-1} ./check $c quick 2>&1 | grep -a "VIOLATION\|quick seed\|HARNESS" | head -4)
-    if echo "$out" | grep -q VIOLATION; then verdict=CAUGHT; else verdict=missed; fi
+    if echo "$out" | grep -q VIOLATION; then verdict=CAUGHT; elif echo "$out" | grep -q HARNESS; then verdict=HARNESS-ERROR; else verdict=missed; fi
     echo "$d  check=$c  $verdict  :: $(echo "$out" | grep -a 'quick seed' | sed 's/.*cases=/cases=/')"
     echo "$out" | grep -a VIOLATION | head -2 | sed 's/^/      /'
   done
